@@ -8,10 +8,10 @@ Open Scope Z_scope.
 
 (* A completed transform returns the tree the SPEC describes. *)
 Definition C16_returns_spec (q : quirks) : Prop :=
-  forall ltb mklink f cp fuel st root p t res st' log,
+  forall ltb mklink f cp fault fuel st root p t res st' log,
     (forall x v, owf x -> f x = Some v -> wf_dm v = true) ->
     raw t = root -> valid st t -> wfx t ->
-    focused_transform ltb mklink q f cp fuel st root p = Ok (res, (st', log)) ->
+    focused_transform ltb mklink q f cp fault fuel st root p = Ok (res, (st', log)) ->
     match xupdate ltb mklink f cp st t p with
     | XNeedLoad => True
     | XOk (Some t') _ => res = raw t'
@@ -20,25 +20,26 @@ Definition C16_returns_spec (q : quirks) : Prop :=
 
 (* Where the SPEC defines a result (and the root's prototype accepts it), the transform does not panic. *)
 Definition C16_no_panic (q : quirks) : Prop :=
-  forall ltb mklink f cp fuel st root p t t' seen,
+  forall ltb mklink f cp fault fuel st root p t t' seen,
     (forall x v, owf x -> f x = Some v -> wf_dm v = true) ->
     raw t = root -> valid st t -> wfx t ->
     xupdate ltb mklink f cp st t p = XOk (Some t') seen ->
     (p = [] -> root_accepts root (raw t') = true) ->
-    focused_transform ltb mklink q f cp fuel st root p <> Err EPanic.
+    focused_transform ltb mklink q f cp fault fuel st root p <> Err EPanic.
 
 Lemma returns_spec_fixed : C16_returns_spec q_fixed.
 Proof.
-  intros ltb mklink f cp fuel st root p t res st' log Hf Hr Hv Hw HF.
-  pose proof (focus_ok ltb mklink f cp Hf fuel st root p t res st' log Hr Hv Hw HF) as H.
+  intros ltb mklink f cp fault fuel st root p t res st' log Hf Hr Hv Hw HF.
+  pose proof (focus_ok ltb mklink f cp fault Hf fuel st root p t res st' log Hr Hv Hw HF) as H.
   destruct (xupdate ltb mklink f cp st t p) as [[t'|] seen| |]; auto. now destruct H.
 Qed.
 
 Lemma no_panic_fixed : C16_no_panic q_fixed.
 Proof.
-  intros ltb mklink f cp fuel st root p t t' seen Hf Hr Hv Hw HX Hacc HF.
+  intros ltb mklink f cp fault fuel st root p t t' seen Hf Hr Hv Hw HX Hacc HF.
   assert (Hne : EPanic <> EFuel) by discriminate.
-  pose proof (focus_err ltb mklink f cp Hf fuel st root p t EPanic Hr Hv Hw HF Hne) as H.
+  assert (Hns : EPanic <> EStore) by discriminate.
+  pose proof (focus_err ltb mklink f cp fault Hf fuel st root p t EPanic Hr Hv Hw HF Hne Hns) as H.
   rewrite HX in H. destruct H as (Hp & Hna & _). rewrite (Hacc Hp) in Hna. discriminate.
 Qed.
 
@@ -64,7 +65,7 @@ Ltac wf_leafs := repeat (constructor; try reflexivity).
 Lemma refuted_list_delete : ~ C16_returns_spec (Build_quirks true false false false false false).
 Proof.
   intro H.
-  specialize (H no_order no_link fdel false 10%nat [] l123 [seg1] (inject l123)
+  specialize (H no_order no_link fdel false false 10%nat [] l123 [seg1] (inject l123)
                 (DList [DInt 1; nil_node; DInt 3]) [] [Some (DInt 2)] fdel_wf eq_refl).
   assert (Hv : valid [] (inject l123)) by apply valid_inject.
   assert (Hw : wfx (inject l123)) by (apply wfx_inject; reflexivity).
@@ -75,7 +76,7 @@ Qed.
 Lemma refuted_append_nil : ~ C16_returns_spec (Build_quirks false true false false false false).
 Proof.
   intro H.
-  specialize (H no_order no_link fdel false 10%nat [] l123 [dash] (inject l123)
+  specialize (H no_order no_link fdel false false 10%nat [] l123 [dash] (inject l123)
                 (DList [DInt 1; DInt 2; DInt 3; nil_node]) [] [None] fdel_wf eq_refl).
   assert (Hv : valid [] (inject l123)) by apply valid_inject.
   assert (Hw : wfx (inject l123)) by (apply wfx_inject; reflexivity).
@@ -86,7 +87,7 @@ Qed.
 Lemma refuted_missing_key : ~ C16_returns_spec (Build_quirks false false true false false false).
 Proof.
   intro H.
-  specialize (H no_order no_link fdel false 10%nat [] mab [segzz] (inject mab)
+  specialize (H no_order no_link fdel false false 10%nat [] mab [segzz] (inject mab)
                 (DMap [(sega, DInt 1); (segzz, nil_node)]) [] [None; None] fdel_wf eq_refl).
   assert (Hv : valid [] (inject mab)) by apply valid_inject.
   assert (Hw : wfx (inject mab)) by (apply wfx_inject; reflexivity).
@@ -97,7 +98,7 @@ Qed.
 Lemma refuted_negative_index : ~ C16_returns_spec (Build_quirks false false false true false false).
 Proof.
   intro H.
-  specialize (H no_order no_link (fconst (DInt 7)) false 10%nat [] l123 [[45%N; 53%N]] (inject l123)
+  specialize (H no_order no_link (fconst (DInt 7)) false false 10%nat [] l123 [[45%N; 53%N]] (inject l123)
                 (DList [DInt 1; DInt 2; DInt 3; DInt 7]) [] [None] (fconst_wf (DInt 7) eq_refl) eq_refl).
   assert (Hv : valid [] (inject l123)) by apply valid_inject.
   assert (Hw : wfx (inject l123)) by (apply wfx_inject; reflexivity).
@@ -108,7 +109,7 @@ Qed.
 Lemma refuted_append_parents : ~ C16_returns_spec (Build_quirks false false false false true false).
 Proof.
   intro H.
-  specialize (H no_order no_link (fconst (DInt 7)) false 10%nat [] l123 [dash; sega] (inject l123)
+  specialize (H no_order no_link (fconst (DInt 7)) false false 10%nat [] l123 [dash; sega] (inject l123)
                 (DList [DInt 1; DInt 2; DInt 3; DMap [(sega, DInt 7)]]) [] [None]
                 (fconst_wf (DInt 7) eq_refl) eq_refl).
   assert (Hv : valid [] (inject l123)) by apply valid_inject.
@@ -120,7 +121,7 @@ Qed.
 Lemma refuted_null_root : ~ C16_no_panic (Build_quirks false false false false false true).
 Proof.
   intro H.
-  specialize (H no_order no_link fid false 10%nat [] DNull [] (XLeaf DNull) (XLeaf DNull) (Some DNull)
+  specialize (H no_order no_link fid false false 10%nat [] DNull [] (XLeaf DNull) (XLeaf DNull) (Some DNull)
                 fid_wf eq_refl (V_leaf [] DNull) (W_leaf DNull eq_refl) eq_refl (fun _ => eq_refl)).
   apply H. reflexivity.
 Qed.
@@ -138,7 +139,7 @@ Proof. constructor; [reflexivity|]. constructor; [|constructor]. simpl. construc
 Lemma refuted_delete_in_block_panics : ~ C16_no_panic (Build_quirks true false false false false false).
 Proof.
   intro H.
-  eapply (H no_order no_link fdel false 10%nat st1 root1 [sega; seg1] t1 _ _ fdel_wf eq_refl t1_valid t1_wfx).
+  eapply (H no_order no_link fdel false false 10%nat st1 root1 [sega; seg1] t1 _ _ fdel_wf eq_refl t1_valid t1_wfx).
   - vm_compute. reflexivity.
   - discriminate.
   - vm_compute. reflexivity.
@@ -147,12 +148,12 @@ Qed.
 Theorem pinned_refuted : ~ C16_returns_spec q_pinned /\ ~ C16_no_panic q_pinned.
 Proof.
   split; intro H.
-  - specialize (H no_order no_link fdel false 10%nat [] l123 [seg1] (inject l123)
+  - specialize (H no_order no_link fdel false false 10%nat [] l123 [seg1] (inject l123)
                   (DList [DInt 1; nil_node; DInt 3]) [] [Some (DInt 2)] fdel_wf eq_refl).
     assert (Hv : valid [] (inject l123)) by apply valid_inject.
     assert (Hw : wfx (inject l123)) by (apply wfx_inject; reflexivity).
     specialize (H Hv Hw eq_refl). vm_compute in H. discriminate.
-  - specialize (H no_order no_link fid false 10%nat [] DNull [] (XLeaf DNull) (XLeaf DNull) (Some DNull)
+  - specialize (H no_order no_link fid false false 10%nat [] DNull [] (XLeaf DNull) (XLeaf DNull) (Some DNull)
                   fid_wf eq_refl (V_leaf [] DNull) (W_leaf DNull eq_refl) eq_refl (fun _ => eq_refl)).
     apply H. reflexivity.
 Qed.
@@ -185,7 +186,7 @@ Qed.
 (* all hypotheses of focus_ok hold together, a link is crossed, and the final store is coherent *)
 Example focus_ok_satisfiable :
   raw ex_t = ex_root /\ valid ex_st ex_t /\ wfx ex_t /\
-  focused_transform rfc_ltb ex_link q_fixed (fconst (DInt 2)) false 10 ex_st ex_root ex_path
+  focused_transform rfc_ltb ex_link q_fixed (fconst (DInt 2)) false false 10 ex_st ex_root ex_path
   = Ok (DMap [(sega, DLink [2%N])], (ex_st', [Some (DInt 1)])) /\
   coherent ex_link ex_st' /\
   (exists t', xupdate rfc_ltb ex_link (fconst (DInt 2)) false ex_st ex_t ex_path = XOk (Some t') (Some (DInt 1))
@@ -204,12 +205,12 @@ Qed.
 
 Example focus_identity_satisfiable :
   store_wf rfc_ltb ex_link ex_st /\ xfocus (Some ex_t) ex_path = Some (XLeaf (DInt 1)) /\
-  focused_transform rfc_ltb ex_link q_fixed fid false 10 ex_st ex_root ex_path
+  focused_transform rfc_ltb ex_link q_fixed fid false false 10 ex_st ex_root ex_path
   = Ok (ex_root, (ex_st, [Some (DInt 1)])).
 Proof. split; [exact ex_store_wf|]. split; [reflexivity | vm_compute; reflexivity]. Qed.
 
 Example focus_seq_satisfiable :
-  let steps := [(ex_path, fconst (DInt 2), false); ([segzz], fconst (DString sega), false)] in
+  let steps := [(ex_path, fconst (DInt 2), false, false); ([segzz], fconst (DString sega), false, false)] in
   Forall step_wf steps /\
   mseq rfc_ltb ex_link 10 steps ex_st ex_root
   = Ok (DMap [(sega, DLink [2%N]); (segzz, DString sega)], ex_st') /\
@@ -223,7 +224,7 @@ Qed.
 
 Example quirks_irrelevant_satisfiable :
   (forall x, fconst (DInt 2) x <> None) /\ path_ok false ex_path /\
-  focused_transform rfc_ltb ex_link q_pinned (fconst (DInt 2)) false 10 ex_st ex_root ex_path
+  focused_transform rfc_ltb ex_link q_pinned (fconst (DInt 2)) false false 10 ex_st ex_root ex_path
   = Ok (DMap [(sega, DLink [2%N])], (ex_st', [Some (DInt 1)])).
 Proof.
   split; [discriminate|]. split; [split; [reflexivity | right; reflexivity]|]. vm_compute. reflexivity.
